@@ -67,7 +67,23 @@ def canon(t):
     return res
 
 
-def discharge(ob, timeout_ms=Z3_TIMEOUT_MS, want_model=True):
+def discharge_canaries(obligs, timeout_ms=3000):
+    """a canary clause only needs ONE refuted instance (some path reaches the exit); stop at the first, single attempt each"""
+    by = {}
+    for ob in obligs:
+        by.setdefault(ob.meta.get("clause"), []).append(ob)
+    for clause, obs in by.items():
+        done = False
+        for ob in obs:
+            if done:
+                ob.status, ob.backend, ob.time = "skipped", "-", 0.0
+                continue
+            discharge(ob, timeout_ms, single=True)
+            if ob.status == "refuted":
+                done = True
+
+
+def discharge(ob, timeout_ms=Z3_TIMEOUT_MS, want_model=True, single=False):
     """sets ob.status in {'proved','refuted','unknown'}, ob.time, ob.model (text), ob.backend"""
     t0 = time.time()
     if not getattr(ob, "_canon", False):
@@ -83,6 +99,21 @@ def discharge(ob, timeout_ms=Z3_TIMEOUT_MS, want_model=True):
     s.add(z3.Not(ob.goal))
     r = s.check()
     backend = "z3"
+    if single and r == z3.unknown and getattr(ob, "qfacts", None):
+        drop = set(ob.qfacts)
+        s3 = z3.Solver()
+        s3.set("timeout", timeout_ms)
+        s3.add(*[h for i, h in enumerate(ob.hyps) if i not in drop])
+        s3.add(z3.Not(ob.goal))
+        if s3.check() == z3.sat:
+            r, s = z3.sat, s3
+    if single:
+        ob.time = time.time() - t0
+        ob.backend = backend
+        ob.status = "proved" if r == z3.unsat else ("refuted" if r == z3.sat else "unknown")
+        if r == z3.sat:
+            ob.model = "<canary model omitted>"
+        return ob
     if r == z3.unknown:
         # definitional quantified facts (f(args) == body) are macros: let z3 eliminate them
         sm = z3.Solver()
